@@ -61,7 +61,7 @@ var RespVariants = map[string][]string{
 	"connection": {"canonical", "absent", "case-name", "case-value", "blanks", "wrong", "empty", "dup-same", "dup-diff", "list", "trailing-cr"},
 	"accept":     {"canonical", "absent", "case-name", "blanks", "other-key", "len27", "len29", "empty", "dup-same", "dup-diff", "lowercased", "noncanonical-base64", "one-char-off", "urlsafe-alphabet", "sha1-of-key-only", "quoted", "trailing-cr"},
 	"protocol":   {"none", "first", "last", "unrequested", "valid-then-unrequested", "unrequested-then-valid", "two-valid", "empty-value", "list", "case-changed"},
-	"extensions": {"none", "first", "first-with-params", "all", "unoffered", "offered-then-unoffered", "malformed", "empty-value"},
+	"extensions": {"none", "first", "first-with-params", "all", "unoffered", "offered-then-unoffered", "malformed", "empty-value", "all-separate-lines", "separate-lines-then-unoffered"},
 	"extra":      {"none", "some", "long-value", "no-colon-line", "token-names", "blank-value"},
 	"eol":        {"crlf", "lf"},
 }
@@ -281,6 +281,12 @@ func BuildResp(rng *rand.Rand, choice map[string]string, in ReqInfo) *Resp {
 		r.ExtSent = []string{in.Extensions[0] + "; server_no_context_takeover; client_max_window_bits=10"}
 	case "all":
 		r.ExtSent = []string{strings.Join(in.Extensions, ", ")}
+	case "all-separate-lines":
+		// RFC 6455 §9.1: the header may be split over several lines, which is the same as one combined list
+		r.ExtSent = append([]string(nil), in.Extensions...)
+	case "separate-lines-then-unoffered":
+		r.ExtSent = append(append([]string(nil), in.Extensions...), "never-offered; x=1")
+		v.Reject("extension on a later header line not offered")
 	case "unoffered":
 		r.ExtSent = []string{"never-offered; x=1"}
 		v.Reject("extension not offered")
